@@ -83,6 +83,11 @@ func newSess(a *app.App, mode string, cfg engine.Config) *app.Session {
 	if mode == "long-lived" {
 		return app.NewSession(a, cfg, app.LongLived)
 	}
+	if mode == "kept-state" {
+		s := app.NewSession(a, cfg, app.KeptState)
+		s.FinishOnError = true
+		return s
+	}
 	if cfg.SessionId == "" {
 		cfg.SessionId = "s1"
 	}
